@@ -252,6 +252,10 @@ class UConc(UBase):
 
     def choice(self, name, options):
         options = list(options)
+        if self.given is not None and name in self.given and not isinstance(self.given[name], int) \
+                and self.given[name] in options:
+            self.drawn[name] = self.given[name]
+            return self.given[name]
         i = self.int(name, 0, len(options) - 1)
         return options[i]
 
